@@ -1,6 +1,7 @@
 from . import COMMON_TB, FLOCQ_AXIOMS_NOTE
 
 CONFIG = dict(
+    also_release=True,
     harness="c11",
     comparisons=[
         dict(name="model", code=1100, kind="eq"),
